@@ -147,13 +147,15 @@ CLAIMS = {
         text="Lean 4 theorems, one per Bundesbank method, for ALL ten digits (10^10 account numbers, symbolic) and "
              "every incoming scratch state: the engine model instantiated with the class parameters and MRO hook "
              "chains regenerated from the live tree returns a verdict (never a foreign exception) and accepts "
-             "exactly when the published rule of SV.Spec.Germany does - proved for 37 of the 39 methods (plain "
+             "exactly when the published rule of SV.Spec.Germany does - proved for all 39 methods (plain "
              "weighted-modulus methods by symbolic evaluation reduced to a kernel-decided statement over "
-             "(sum mod m, check digit); 08, 09, 16, 17, 21, 23, 25, 26, 61, 63, 76, 88, 91, 99 with their case "
-             "splits). Dispatch theorem (first registry entry names the method; unlisted bank / unimplemented "
+             "(sum mod m, check digit); 08, 09, 16, 17, 21, 23, 24, 25, 26, 61, 63, 68, 76, 88, 91, 99 with "
+             "their case splits), and live_de_total: no live method ever raises a foreign exception on a "
+             "ten-digit account. Dispatch theorem (first registry entry names the method; unlisted bank / unimplemented "
              "method accepted), instance facts (39 registered methods, account field = bban[8:18], no DE:default) "
-             "kernel-checked on regenerated data. PARTIAL: methods 24 and 68 are not proved in Lean; they and all "
-             "others are compared with an independent Python reference of the published rules and with the model.",
+             "kernel-checked on regenerated data. All methods are additionally compared with an independent Python "
+             "reference of the published rules and with the model (the published rules in SV.Spec.Germany are a "
+             "transcription and are part of the trusted base).",
         design="7 (C07)",
         technique="Lean 4 proof (symbolic simp evaluation of the engine + decide +kernel over residues) on "
                   "regenerated class parameters + differential check against an independent reference + "
